@@ -893,6 +893,21 @@ func removeJobFromList(jobs []*PipelineJob, jobToRemove *PipelineJob) []*Pipelin
 	return jobs
 }
 
+// removeJobFromWaitList removes a job from a wait list and keeps the order of the remaining jobs.
+// It returns a new list and does not modify the given one.
+func removeJobFromWaitList(waitList []*PipelineJob, jobToRemove *PipelineJob) []*PipelineJob {
+	for index, job := range waitList {
+		if job == jobToRemove {
+			result := make([]*PipelineJob, 0, len(waitList)-1)
+			result = append(result, waitList[:index]...)
+			return append(result, waitList[index+1:]...)
+		}
+	}
+
+	// not found, we return the full list
+	return waitList
+}
+
 // determineIfJobShouldBeRemoved implements the retention period handling.
 func (r *PipelineRunner) determineIfJobShouldBeRemoved(index int, job *PipelineJob) (bool, string) {
 	pipelineDef, pipelineDefExists := r.defs.Pipelines[job.Pipeline]
@@ -955,6 +970,13 @@ func (r *PipelineRunner) cancelJobInternal(id uuid.UUID) error {
 	if job.Start == nil {
 		job.markAsCanceled()
 
+		// A canceled job must not occupy a slot on the wait list or block the jobs queued behind it
+		if job.startTimer != nil {
+			job.startTimer.Stop()
+			job.startTimer = nil
+		}
+		r.waitListByPipeline[job.Pipeline] = removeJobFromWaitList(r.waitListByPipeline[job.Pipeline], job)
+
 		log.
 			WithField("component", "runner").
 			WithField("pipeline", job.Pipeline).
@@ -962,6 +984,9 @@ func (r *PipelineRunner) cancelJobInternal(id uuid.UUID) error {
 			Debugf("Marked job as canceled, since it was not started")
 
 		r.requestPersist()
+
+		// The head of the wait list might have changed, so the next job could be ready to start
+		r.startJobsOnWaitList(job.Pipeline)
 
 		return nil
 	}
